@@ -66,13 +66,13 @@ void IdxSet::remove(int n, int m)
    int newnum = num - cpy;
    cpy = (size() - m >= cpy) ? cpy : size() - m;
 
-   do
+   // fill the gap with the last elements; nothing is moved when the removed range ends at the end of the set
+   while(cpy > 0)
    {
       --num;
       --cpy;
       idx[n + cpy] = idx[num];
    }
-   while(cpy > 0);
 
    num = newnum;
 }
